@@ -54,6 +54,7 @@ func (c *chacha20poly1305) sealGeneric(dst, nonce, plaintext, additionalData []b
 }
 
 func (c *chacha20poly1305) openGeneric(dst, nonce, ciphertext, additionalData []byte) ([]byte, error) {
+	sealed := ciphertext
 	tag := ciphertext[len(ciphertext)-16:]
 	ciphertext = ciphertext[:len(ciphertext)-16]
 
@@ -69,7 +70,7 @@ func (c *chacha20poly1305) openGeneric(dst, nonce, ciphertext, additionalData []
 	writeUint64(p, len(ciphertext))
 
 	ret, out := sliceForAppend(dst, len(ciphertext))
-	if alias.InexactOverlap(out, ciphertext) {
+	if alias.InexactOverlap(out, sealed) {
 		panic("chacha20poly1305: invalid buffer overlap of output and input")
 	}
 	if alias.AnyOverlap(out, additionalData) {
